@@ -27,11 +27,11 @@ def base_name(n):
     return re.sub(r'@p\d+$', '', n)
 
 
-def concrete_run(contract, tier, limit=None):
+def concrete_run(contract, tier, limit=None, max_failures=12):
     """CPython cross-check: the executable contract on the real function for an enumeration of
-    small inputs.  -> (n_run, first_failure or None) ; first_failure = (label, observed, expected)"""
+    small inputs.  -> (n_run, failures) ; failures = [(label, observed, expected), ...]"""
     n = 0
-    first = None
+    fails = []
     for label, thunk in contract.concrete(tier):
         n += 1
         try:
@@ -39,12 +39,13 @@ def concrete_run(contract, tier, limit=None):
                 ok, obs, exp = thunk()
         except Exception as e:        # the real code raised where the contract expects a result
             ok, obs, exp = False, '%s: %s' % (type(e).__name__, str(e)[:200]), 'no exception'
-        if not ok and first is None:
-            first = (label, obs, exp)
-            break
+        if not ok:
+            fails.append((label, obs, exp))
+            if len(fails) >= max_failures:
+                break
         if limit and n >= limit:
             break
-    return n, first
+    return n, fails
 
 
 from pyvc.replay import replay_contract_case   # noqa: E402,F401
@@ -76,22 +77,25 @@ def run_contracts(ctx, contracts, contracts_module):
         except Exception:
             raise RuntimeError('concrete cross-check of %s crashed:\n%s' % (fn, traceback.format_exc()))
         total_concrete += nrun
-        if fail is not None:
-            label, obs, exp = fail
+        if fail:
             if not summ['refuted'] and summ.get('proved', 0) and not summ['undecided']:
                 ctx.engine_unsound = True
-                ctx.notes.append('ENGINE UNSOUND?: %s proved but fails concretely at %s' % (fn, label))
-            ctx.confirm_and_report(
-                '%s:concrete' % c.key_name, 'call',
-                dict(module='pyvc.replay', func='replay_contract_case',
-                     kwargs=dict(contracts_module=contracts_module, module=c.module,
-                                 qualname=c.key_name, label=label)),
-                canonical_input=dict(function=fn, case=label), function=fn,
-                solver_output='refuted obligations: %s' % [r[0] for r in summ['refuted']][:6],
-                text='contract of %s fails on the real code' % fn)
+                ctx.notes.append('ENGINE UNSOUND?: %s proved but fails concretely at %s' % (fn, fail[0][0]))
+            outcomes = []
+            for (label, obs, exp) in fail:
+                r = ctx.confirm_and_report(
+                    '%s:concrete[%s]' % (c.key_name, label), 'call',
+                    dict(module='pyvc.replay', func='replay_contract_case',
+                         kwargs=dict(contracts_module=contracts_module, module=c.module,
+                                     qualname=c.key_name, label=label)),
+                    canonical_input=dict(function=fn, case=label), function=fn,
+                    solver_output='refuted obligations: %s' % [r_[0] for r_ in summ['refuted']][:6],
+                    text='contract of %s fails on the real code' % fn)
+                outcomes.append(r)
+            all_known = all(o == 'known' for o in outcomes)
             for name, model in summ['refuted']:
-                ctx.obligation(name, fn, 'refuted-replayed', 'z3', 0.0,
-                               detail='first failing input: %s' % label)
+                ctx.obligation(name, fn, 'refuted-known' if all_known else 'refuted-replayed', 'z3', 0.0,
+                               detail='failing inputs: %s' % [f[0] for f in fail][:4])
             continue
         locked = set(lock.get(fn, {}).get('proved', []))
         for name, model in summ['refuted']:
